@@ -1,6 +1,283 @@
-//! C09 -- (stub; see DESIGN.md section 5)
-use crate::util::Args;
+//! C09 -- interpreter totality.
+//!
+//! A grammar-based generator over the full installed vocabulary (every built-in, user macros, braces,
+//! numbers at and beyond every limit, odd characters) produces programs; each is also truncated at
+//! every chunk boundary and run in all four interaction modes on the harness VM (in-memory file
+//! system and terminal).  Each run is a trace for VmProtocol.tla:
+//!   reset, start(mode), rec(mode, continued, located)*, return(kind, located, renders)
+//! A panic is an event no action accepts; a run cut off by the step budget is discarded and counted.
+use crate::util::{quiet_panics, Args, Out, Rng};
+use crate::vmh;
+use serde_json::{json, Value};
 
-pub fn dispatch(_cmd: &str, _args: &Args) -> Option<i32> {
-    None
+pub fn dispatch(cmd: &str, args: &Args) -> Option<i32> {
+    Some(match cmd {
+        "c09-traces" => traces(args),
+        "c09-run" => run_one(args),
+        _ => return None,
+    })
+}
+
+const NUMS: &[&str] = &[
+    "-1", "0", "1", "2", "3", "7", "12", "13", "15", "16", "17", "127", "128", "255", "256", "257", "32767", "32768", "55295",
+    "55296", "57343", "57344", "65535", "65536", "1114111", "1114112", "1073741823", "1073741824", "2147483647", "2147483648",
+    "-2147483647", "-2147483648", "4294967295", "4294967296", "99999999999999999999", "\"7FFFFFFF", "\"80000000", "\"FF", "'777",
+    "'17777777777", "'8", "\"G", "`a", "`\\a", "`\\^^M", "`^^@", "`", "--5", "-+-3", "+", "-", "\\count1", "\\dimen1", "\\skip1",
+    "\\toks1", "\\catcode`a", "\\the\\count1", "1.5", ".5", "1,5", "1e3",
+];
+const UNITS: &[&str] = &["pt", "sp", "pc", "in", "bp", "cm", "mm", "dd", "cc", "em", "ex", "fil", "fill", "filll", "fillll", "truept", "true pt", "xx", "", "p", "\\dimen1", "\\count1", "\\skip1"];
+const ODD: &[&str] = &["#", "##", "^^M", "^^@", "^^?", "^^", "^", "~", "$", "&", "_", "%", "é", "€", "\u{7f}", "\u{0}", "\t", " ", "  ", "\n", "\n\n", "\\", "\\ ", "\\\n", "{", "}", "{}", "}{", "a", "Z", "0", "=", "<", ">", "."];
+const FILES: &[&str] = &["fa", "fb", "fc", "loop", "nosuch", "fa.tex", "dir/fd", "a>b", "a:b", "../x", "", "\\relax", "{fa}", "fa fb"];
+const CSNAMES: &[&str] = &["ma", "mb", "mc", "xa", "xb", "undefinedcs", "par", "relax"];
+
+fn pick<'a>(rng: &mut Rng, xs: &'a [&'a str]) -> &'a str {
+    xs[rng.below(xs.len() as u64) as usize]
+}
+
+fn num(rng: &mut Rng) -> String {
+    if rng.chance(1, 8) {
+        format!("{}", rng.range(-300, 70000))
+    } else {
+        pick(rng, NUMS).to_string()
+    }
+}
+
+fn dimen(rng: &mut Rng) -> String {
+    format!("{}{}", num(rng), pick(rng, UNITS))
+}
+
+fn glue(rng: &mut Rng) -> String {
+    let mut s = dimen(rng);
+    if rng.chance(1, 2) {
+        s.push_str(" plus ");
+        s.push_str(&dimen(rng));
+    }
+    if rng.chance(1, 2) {
+        s.push_str(" minus ");
+        s.push_str(&dimen(rng));
+    }
+    s
+}
+
+fn cs(rng: &mut Rng) -> String {
+    format!("\\{}", pick(rng, CSNAMES))
+}
+
+fn body(rng: &mut Rng, vocab: &[String], depth: u32) -> String {
+    let mut s = String::new();
+    for _ in 0..rng.below(4) {
+        s.push_str(&chunk(rng, vocab, depth));
+    }
+    s
+}
+
+/// One chunk of program text.
+fn chunk(rng: &mut Rng, vocab: &[String], depth: u32) -> String {
+    let prim = |rng: &mut Rng| format!("\\{}", vocab[rng.below(vocab.len() as u64) as usize]);
+    if depth == 0 {
+        return match rng.below(3) {
+            0 => prim(rng) + " ",
+            1 => num(rng) + " ",
+            _ => pick(rng, ODD).to_string(),
+        };
+    }
+    let d = depth - 1;
+    match rng.below(46) {
+        0..=4 => prim(rng) + " ",
+        5 => format!("{}{} ", prim(rng), num(rng)),
+        6 => format!("{}{}={} ", prim(rng), num(rng), num(rng)),
+        7 => format!("{} {} ", prim(rng), prim(rng)),
+        8 => format!("\\count{}={} ", num(rng), num(rng)),
+        9 => format!("\\dimen{}={} ", num(rng), dimen(rng)),
+        10 => format!("\\skip{}={} ", num(rng), glue(rng)),
+        11 => format!("\\toks{}={{{}}}", num(rng), body(rng, vocab, d)),
+        12 => format!("\\catcode{}={} ", num(rng), num(rng)),
+        13 => format!("\\mathcode{}={} ", num(rng), num(rng)),
+        14 => format!("\\chardef{}={} ", cs(rng), num(rng)),
+        15 => format!("\\mathchardef{}={} ", cs(rng), num(rng)),
+        16 => format!("\\{}{}={} ", pick(rng, &["countdef", "toksdef"]), cs(rng), num(rng)),
+        17 => format!("\\let{}={}", cs(rng), chunk(rng, vocab, 0)),
+        18 => {
+            let np = rng.below(4);
+            let mut params = String::new();
+            for i in 1..=np {
+                params.push_str(&format!("#{}", if rng.chance(1, 8) { i + 1 } else { i }));
+                if rng.chance(1, 3) {
+                    params.push_str(pick(rng, &[".", ",", " ", "ab", "\\relax"]));
+                }
+            }
+            let mut b = body(rng, vocab, d);
+            for i in 1..=np {
+                if rng.chance(2, 3) {
+                    b.push_str(&format!("#{i}"));
+                }
+            }
+            if rng.chance(1, 10) {
+                b.push_str("#9");
+            }
+            format!("\\{}{}{}{{{}}}", pick(rng, &["def", "gdef"]), cs(rng), params, b)
+        }
+        19 => format!("{} {}{{{}}}", cs(rng), chunk(rng, vocab, 0), body(rng, vocab, d)),
+        20 => format!("\\font{}={} ", cs(rng), pick(rng, &["fa", "fb", "nofont", "", "fa.mock"])),
+        21 => format!("\\endlinechar={} ", num(rng)),
+        22 => format!("\\globaldefs={} ", num(rng)),
+        23 => format!("\\the{}", chunk(rng, vocab, 0)),
+        24 => format!("\\the\\{}{} ", pick(rng, &["count", "dimen", "skip", "toks", "catcode", "mathcode", "font", "endlinechar", "globaldefs", "relax", "def", "the"]), num(rng)),
+        25 => format!("\\{}\\{}{} by {} ", pick(rng, &["advance", "multiply", "divide"]), pick(rng, &["count", "dimen", "skip", "toks", "catcode", "year"]), num(rng), num(rng)),
+        26 => format!("\\ifnum{}{}{} {}\\else {}\\fi ", num(rng), pick(rng, &["<", "=", ">", "!", ""]), num(rng), body(rng, vocab, d), body(rng, vocab, d)),
+        27 => format!("\\ifcase{} {}\\or {}\\else {}\\fi ", num(rng), body(rng, vocab, d), body(rng, vocab, d), body(rng, vocab, d)),
+        28 => format!("\\{} {}", pick(rng, &["ifodd", "iftrue", "iffalse", "else", "fi", "or", "ifeof"]), num(rng)),
+        29 => format!("\\{} ", pick(rng, &["expandafter", "noexpand", "relax", "global", "long", "outer", "global\\global", "long\\outer\\global"])),
+        30 => format!("{{{}}}", body(rng, vocab, d)),
+        31 => format!("\\input {} ", pick(rng, FILES)),
+        32 => format!("\\openin{}={} ", num(rng), pick(rng, FILES)),
+        33 => format!("\\read{} to {} ", num(rng), cs(rng)),
+        34 => format!("\\{}{} ", pick(rng, &["closein", "ifeof"]), num(rng)),
+        35 => format!("\\{} ", pick(rng, &["endinput", "jobname", "batchmode", "nonstopmode", "scrollmode", "errorstopmode", "par"])),
+        36 => format!("\\newInt{} {}={} ", cs(rng), cs(rng), num(rng)),
+        37 => format!("\\newIntArray{} {} {} {}={} ", cs(rng), pick(rng, &["0", "1", "3", "256", "70000", "-1", "x"]), cs(rng), num(rng), num(rng)),
+        38 => format!("\\tracingmacros={} ", num(rng)),
+        39..=44 => {
+            // value flows: put an extreme value into a register, then use it where a number, dimension,
+            // glue, index or character code is expected
+            let r = pick(rng, &["count", "dimen", "skip"]);
+            let set = match r {
+                "count" if rng.chance(1, 4) => "\\count1=-2147483647 \\advance\\count1 by -1 ".to_string(),
+                "count" => format!("\\count1={} ", num(rng)),
+                "dimen" => format!("\\dimen1={} ", dimen(rng)),
+                _ => format!("\\skip1={} ", glue(rng)),
+            };
+            let sign = pick(rng, &["", "-", "--", "+-"]);
+            let v = format!("{sign}\\{r}1");
+            let uses = [
+                format!("\\dimen2={v} sp "), format!("\\dimen2={v}pt "), format!("\\dimen2={v} "), format!("\\count2={v} "),
+                format!("\\skip2={v} plus {v} minus {v} "), format!("\\skip2=1pt plus {v} fil "), format!("\\multiply\\{r}1 by {} ", num(rng)),
+                format!("\\divide\\{r}1 by {} ", num(rng)), format!("\\advance\\{r}1 by {v} "), format!("\\multiply\\count2 by {v} "),
+                format!("\\count{v}=1 "), format!("\\catcode{v}=11 "), format!("\\catcode`a={v} "), format!("\\chardef\\xa={v} "),
+                format!("\\ifnum{v}<{v} a\\fi "), format!("\\ifodd{v} a\\fi "), format!("\\ifcase{v} a\\or b\\fi "), format!("\\endlinechar={v} "),
+                format!("\\the\\{r}1 "), format!("\\openin{v}=fa "), format!("\\mathcode{v}={v} "), format!("\\toks{v}={{a}}"),
+                format!("\\newInt\\xb \\xb={v} \\the\\xb "), format!("\\dimen2=1.5{v} "), format!("\\dimen2={}\\dimen1 ", num(rng)),
+            ];
+            format!("{set}{}", uses[rng.below(uses.len() as u64) as usize])
+        }
+        _ => pick(rng, ODD).to_string(),
+    }
+}
+
+pub fn fs_files() -> Vec<(String, String)> {
+    vec![
+        ("fa.tex".to_string(), "A\\count1=5 \\endinput B\nC\n".to_string()),
+        ("fb.tex".to_string(), "{ \\def\\mb#1{#1}\n".to_string()),
+        ("fc.tex".to_string(), "".to_string()),
+        ("loop.tex".to_string(), "\\input loop ".to_string()),
+        ("dir/fd.tex".to_string(), "x}y{\n\n".to_string()),
+    ]
+}
+
+pub const MODES: [&str; 4] = ["errorstopmode", "scrollmode", "nonstopmode", "batchmode"];
+
+/// Run one program in one mode; returns the trace events (without the reset).
+pub fn run_trace(program: &str, mode: &str, budget: u64) -> Vec<Value> {
+    run_trace_h(program, mode, budget, true)
+}
+
+/// strict = TeX's default for undefined commands (an error); otherwise the harness handler lets the
+/// run continue so that later text is reached.
+pub fn run_trace_h(program: &str, mode: &str, budget: u64, strict: bool) -> Vec<Value> {
+    let term = vec!["first line".to_string(), "second { line".to_string(), "third } line".to_string()];
+    let mut vm = vmh::new_vm(&fs_files(), &term);
+    let src = format!("\\{mode} {program}");
+    vmh::recov_start();
+    let r = if strict {
+        vmh::run_src::<vmh::HStrict>(&mut vm, "main.tex", &src, budget)
+    } else {
+        vmh::run_src::<vmh::H>(&mut vm, "main.tex", &src, budget)
+    };
+    let recs = vmh::recov_take();
+    let mut ev = vec![json!({"ev":"start","mode":mode})];
+    for (m, cont, located) in recs {
+        ev.push(json!({"ev":"rec","mode":m,"cont":cont,"located":located}));
+    }
+    ev.push(match r.outcome {
+        vmh::Outcome::Ok => json!({"ev":"return","kind":"ok","located":true,"renders":true}),
+        vmh::Outcome::Err { rendered, title } => json!({"ev":"return","kind":"err","located":rendered.contains(">>>"),
+            "renders":!rendered.trim().is_empty() && !title.is_empty(),"title":title}),
+        vmh::Outcome::Panic { site, msg } => json!({"ev":"panic","site":site,"msg":msg}),
+        vmh::Outcome::Budget => json!({"ev":"cutoff"}),
+    });
+    ev
+}
+
+pub fn traces(args: &Args) -> i32 {
+    quiet_panics();
+    let seed: u64 = args.num("seed", 1);
+    let n: usize = args.num("n", 2000);
+    let budget: u64 = args.num("budget", 20_000);
+    // \newIntArray allocates whatever length it is given (a texcraft extension; memory exhaustion is
+    // not a verdict of this property): it is only generated through its own template with small sizes
+    let mut vocab: Vec<String> = vmh::built_ins().keys().map(|k| k.to_string())
+        .filter(|k| !k.contains('\u{0}') && k != "newIntArray").collect();
+    vocab.sort();
+    let mut rng = Rng::new(seed);
+    // programs and their truncations
+    let mut programs: Vec<String> = vec![];
+    for _ in 0..n {
+        let nch = 1 + rng.below(7) as usize;
+        let chunks: Vec<String> = (0..nch).map(|_| chunk(&mut rng, &vocab, 2)).collect();
+        let full = chunks.concat();
+        // every chunk boundary, plus two cuts inside the text
+        let mut acc = String::new();
+        for c in &chunks[..nch - 1] {
+            acc.push_str(c);
+            programs.push(acc.clone());
+        }
+        if full.chars().count() > 2 {
+            for _ in 0..2 {
+                let k = 1 + rng.below(full.chars().count() as u64 - 1) as usize;
+                programs.push(full.chars().take(k).collect());
+            }
+        }
+        programs.push(full);
+    }
+    let nthreads = std::thread::available_parallelism().map(|n| n.get()).unwrap_or(4);
+    let next = std::sync::atomic::AtomicUsize::new(0);
+    let results: std::sync::Mutex<Vec<(usize, Vec<Value>)>> = std::sync::Mutex::new(vec![]);
+    std::thread::scope(|sc| {
+        for _ in 0..nthreads {
+            // a generous stack: deeply nested groups / macro arguments recurse in the parser
+            std::thread::Builder::new().stack_size(256 << 20).spawn_scoped(sc, || {
+                let mut local = vec![];
+                loop {
+                    let i = next.fetch_add(1, std::sync::atomic::Ordering::SeqCst);
+                    if i >= programs.len() * 4 {
+                        break;
+                    }
+                    let (pi, mi) = (i / 4, i % 4);
+                    let mut ev = vec![json!({"ev":"reset","mode":MODES[mi],"program":programs[pi]})];
+                    ev.extend(run_trace_h(&programs[pi], MODES[mi], budget, pi % 2 == 0));
+                    local.push((i, ev));
+                }
+                results.lock().unwrap().extend(local);
+            }).unwrap();
+        }
+    });
+    let mut res = results.into_inner().unwrap();
+    res.sort_by_key(|x| x.0);
+    let mut out = Out::new(args.str("out"));
+    for (_, evs) in res {
+        for e in evs {
+            out.line(&e);
+        }
+    }
+    0
+}
+
+/// Replay helper: `vh c09-run src=FILE mode=M`
+pub fn run_one(args: &Args) -> i32 {
+    quiet_panics();
+    let program = std::fs::read_to_string(args.req("src")).unwrap();
+    for e in run_trace(&program, args.str("mode").unwrap_or("errorstopmode"), args.num("budget", 20_000)) {
+        println!("{e}");
+    }
+    0
 }
